@@ -47,6 +47,20 @@ def plain(v):
     return v
 
 
+def plain_keep(v):
+    """Like `plain`, but tuples and sets stay what they are (context snapshots: a container a step found in the
+    context must still be the same container afterwards)."""
+    if isinstance(v, dict):
+        return {plain_keep(k): plain_keep(x) for k, x in v.items()}
+    if isinstance(v, list):
+        return [plain_keep(x) for x in v]
+    if isinstance(v, tuple):
+        return tuple(plain_keep(x) for x in v)
+    if isinstance(v, (set, frozenset)):
+        return {plain_keep(x) for x in v}
+    return plain(v)
+
+
 def err(e):
     return {'err': exc_name(e), 'msg': str(e)[:200]}
 
@@ -387,9 +401,12 @@ def third_party_roundtrip(fmt, value):
         else:
             import tomli_w
             text = tomli_w.dumps(value)
-        back = plain(load(fmt, text))
     except Exception:
         return None
+    try:
+        back = plain(load(fmt, text))
+    except Exception:
+        return False        # the loader refuses what the writer wrote: `dec (enc d) = d` fails on d
     return sort_wire(enc(back)) == sort_wire(enc(value))
 
 
@@ -401,6 +418,74 @@ def clean_dir():
             shutil.rmtree(p, ignore_errors=True)
         else:
             os.unlink(p)
+
+
+# --------------------------------------------------------------------------
+# steps on ONE context object (what a pipeline does): put a file / filewriteX / fetchX, one after the other
+# --------------------------------------------------------------------------
+
+def run_ctx_session(ctx0, ops):
+    """`ops` (wire): {'op': 'put', 'format', 'path', 'doc'} - the file is (re)placed on disk with the plain writer of
+    the format, no pypyr code; {'op': 'write'|'fetch', 'format', 'input'} - the real step with `in: {key: input}` the
+    way Step.run_pipeline_steps does it: input into the context, run_step, input out again. ONE Context object for
+    the whole list. Per op a record: put -> {'put': 'ok'|err}; step -> {'before': ctx wire, 'after': ctx wire,
+    'err'?, 'file'?: what the plain loader of the format reads from the path (fetch: before the step; write: after),
+    'want'?: (write) pypyr's formatter on deep copies = the formatted payload}. Stops after the first step that raises."""
+    import copy
+    from .common import dec
+    from pypyr.context import Context
+    ctx = Context(copy.deepcopy(ctx0))
+    out = []
+
+    def on_disk(fmt, path):
+        try:
+            with open(path, 'rb') as f:
+                return {'ok': enc(plain(load(fmt, f.read().decode('utf-8'))))}
+        except Exception as e:   # noqa: BLE001
+            return {'unreadable': type(e).__name__}
+
+    for op in ops:
+        fmt = op['format']
+        if op['op'] == 'put':
+            try:
+                text = render(fmt, dec(op['doc']))
+                d = os.path.dirname(op['path'])
+                if d:
+                    os.makedirs(d, exist_ok=True)
+                with open(op['path'], 'wb') as f:
+                    f.write(text.encode('utf-8'))
+                out.append({'put': 'ok'})
+            except Exception as e:   # noqa: BLE001
+                out.append({'put': err(e)})
+                break
+            continue
+        modname, key = (WRITE if op['op'] == 'write' else FETCH)[fmt]
+        mod = importlib.import_module(modname)
+        inp = dec(op['input'])
+        rec = {'before': sort_wire(enc(plain_keep(dict(ctx))))}
+        path = inp if isinstance(inp, str) else inp.get('path')
+        if op['op'] == 'fetch':
+            rec['file'] = on_disk(fmt, path)
+        else:
+            snap = copy.deepcopy(plain_keep(dict(ctx)))
+            snap[key] = copy.deepcopy(inp)
+            rec['want'] = real_format(snap, copy.deepcopy(inp['payload']) if 'payload' in inp else copy.deepcopy(snap), fmt)
+        ctx[key] = copy.deepcopy(inp)
+        try:
+            mod.run_step(ctx)
+        except Exception as e:   # noqa: BLE001
+            rec.update(err(e))
+        ctx.pop(key, None)
+        if op['op'] == 'write' and 'err' not in rec:
+            rec['file'] = on_disk(fmt, path)
+        try:
+            rec['after'] = sort_wire(enc(plain_keep(dict(ctx))))
+        except Exception as e:   # noqa: BLE001
+            rec['after'] = {'unencodable': type(e).__name__}
+        out.append(rec)
+        if 'err' in rec:
+            break
+    return out
 
 
 # --------------------------------------------------------------------------
